@@ -22,6 +22,8 @@ def cells(tier, seed):
                 continue
             if "nested" in b.tags and (n > 2 or len(batch) > 1):
                 continue
+            if "fixedbatch" in b.tags and (n != 2 or batch):
+                continue
             if "eig" in b.tags and (n != 2 or batch):
                 continue
             for g in GROUPS:
